@@ -19,7 +19,7 @@ def applyStepToFiles (files : List FileJ) (stepIn : Json) : List FileJ :=
   | _ => files
 
 /-- C12 on the final directory: completeness, reflection of the current configuration, chains -/
-def convergenceFail (tz : Int) (files : List FileJ) (pems : List PemJ) (ranks : String → Nat) (keys : List KeyJ) : Option (String × Json) := Id.run do
+def convergenceFail (tz : Int) (files : List FileJ) (pems : List PemJ) (ranks : String → Nat) (keys : List KeyJ) (hashes : Option Json := none) : Option (String × Json) := Id.run do
   let certOf (path : String) : Option X509.Certificate :=
     ((pems.find? (·.path = artifactFileName path)).bind (·.cert)).bind fun c =>
       ((hexToBytes c.der).bind X509.decodeDer).bind X509.decCertificate
@@ -44,7 +44,10 @@ def convergenceFail (tz : Int) (files : List FileJ) (pems : List PemJ) (ranks : 
           | none => s
         match Db.validateAndMerge sAt e.alias_, pj.cert with
         | .ok eff, some cj =>
-          let wantHash := ((Hash.hashSum eff tz).map fun h => (String.fromUTF8? ⟨(B64.enc h).toArray⟩).getD "")
+          -- gopki's own hash of the current effective configuration (observed); the model's only where none was observed
+          let wantHash : Option String := match hashes.bind fun j => (j.getObjValAs? String e.alias_).toOption with
+            | some h => some h
+            | none => ((Hash.hashSum eff tz).map fun h => (String.fromUTF8? ⟨(B64.enc h).toArray⟩).getD "")
           if pj.hash != wantHash then fail := some "C12: a certificate gopki produced does not reflect its current configuration (stored hash differs)"
           else
             let der := (hexToBytes cj.der).getD []
@@ -122,6 +125,7 @@ def opHist : OpFn := fun view inp out => do
   let mut files := files0
   let mut prePems : List PemJ ← initial.getObjValAs? (List PemJ) "pems"
   let mut preRanks := ranksOf initial "ranks"
+  let mut prevHashes : Option Json := (initial.getObjVal? "hashes").toOption
   let mut corr := true
   -- every failing clause is kept (with its features); the property view picks the first one of its families
   let mut fails : List (String × Json × Json) := []
@@ -143,7 +147,8 @@ def opHist : OpFn := fun view inp out => do
       let strat ← si.getObjValAs? Nat "strat"
       let fault : Option FaultJ := (si.getObjValAs? FaultJ "fault").toOption
       if fault.isSome then faulted := faulted + 1
-      let o : RunObs ← fromJson? so
+      let o0 : RunObs ← fromJson? so
+      let o : RunObs := { o0 with hashesPre := prevHashes, hashesPost := (so.getObjVal? "hashes").toOption }
       let v := replayRun tz files strat fault prePems postPems preRanks keys o
       if hasSubjectConstraint files then constrained := constrained + 1
       if v.branch == "plan:validate" then rejected := rejected + 1
@@ -163,9 +168,9 @@ def opHist : OpFn := fun view inp out => do
       if i + 2 == n then
         if !v.ok then
           -- a configuration error (the model expects the same failure) is not a convergence failure
-          if !v.corr then fails := fails ++ [("C12: the default run after the history did not succeed: " ++ v.clause, Json.mkObj [], v.detail)]
+          if !v.errAgree then fails := fails ++ [("C12: the default run after the history did not succeed although the reference model expects it to: " ++ v.clause, Json.mkObj [], v.detail)]
         else
-          match convergenceFail tz files postPems (ranksOf so "ranks") keys with
+          match convergenceFail tz files postPems (ranksOf so "ranks") keys (so.getObjVal? "hashes").toOption with
           | some (c, ft0) =>
             let ft := if c.startsWith "C12: a certificate gopki produced keeps an outdated notAfter" then Json.mkObj [("validityNotStatic", true)] else ft0
             fails := fails ++ [(c, ft, Json.null)]
@@ -175,6 +180,7 @@ def opHist : OpFn := fun view inp out => do
     else prevRun := none
     prePems := postPems
     preRanks := ranksOf so "ranks"
+    prevHashes := (so.getObjVal? "hashes").toOption
     i := i + 1
   let seen := fails.find? fun (c, _, _) => viewAccepts view c
   pure { corr := corr, spec := seen.isNone,
